@@ -34,6 +34,11 @@ pub struct KCase {
     pub point_salt: u32,
     /// thorough extras: single drops and torn last writes
     pub deep: bool,
+    /// lock contention: while request number `.0` (an AddVersion; index modulo the history) is
+    /// handled, the first `.1` attempts to take the database's write lock are answered "busy"
+    /// (another connection holds it), then it is free again
+    #[serde(default)]
+    pub busy: Option<(u16, u16)>,
 }
 
 /// "client exists, empty" is identified with "client unknown" (see DESIGN.md C04).
@@ -87,6 +92,71 @@ fn record_history(kc: &KCase) -> Result<Recorded, Fail> {
         for (i, op) in kc.case.ops.iter().enumerate() {
             if matches!(op, Op::AgeSnapshot { .. }) {
                 continue;
+            }
+            if let (Some((bi, attempts)), Op::AddVersion { c, parent, data }) = (kc.busy, op) {
+                if bi as usize % kc.case.ops.len() == i {
+                    let cid = h.clients[*c as usize % h.clients.len()];
+                    let p = h.resolve(parent);
+                    h.know(p);
+                    let bytes = std::sync::Arc::new(data.expand());
+                    let pred = h.model.client(cid).predict_add_version(p);
+                    // like a real lock holder, a connection that stays open keeps the wal-index
+                    // alive (otherwise every new connection would first have to rebuild it, which
+                    // itself needs the write lock)
+                    // (whatever this connection does to the files - a checkpoint when it closes -
+                    // is recorded like everything else)
+                    let holder = rusqlite::Connection::open(dpath.join("taskchampion-sync-server.sqlite3")).map_err(|e| Fail::Inconclusive(format!("lock holder: {e}")))?;
+                    let _: i64 = holder.query_row("SELECT count(*) FROM sqlite_master", [], |r| r.get(0)).map_err(|e| Fail::Inconclusive(format!("lock holder: {e}")))?;
+                    rec.set_busy(attempts as u32);
+                    let s = rec.len();
+                    let out = h.drv.add_version(cid, p, &bytes);
+                    let hits = rec.clear_busy();
+                    // the holder's close (a checkpoint, if it is the last connection) counts as part
+                    // of this request's range: it changes files, not the logical state
+                    drop(holder);
+                    let e = rec.len();
+                    rec.pause();
+                    let d = normalise(h.drv.api_dump(&h.clients, &h.ids).map_err(|e| Fail::Violation(format!("dump: {e:#}")))?);
+                    rec.resume();
+                    let mut stop = false;
+                    match &out {
+                        crate::driver::Outcome::Accepted { id, .. } => {
+                            if pred != crate::model::AvPred::Accept {
+                                return v(format!("request {i} ({op:?}) under lock contention ({hits} busy answers) was accepted against the rule"));
+                            }
+                            h.know(*id);
+                            h.model.client_mut(cid).apply_accept(*id, p, bytes.clone());
+                        }
+                        crate::driver::Outcome::Conflict { .. } => {
+                            if pred == crate::model::AvPred::Accept {
+                                return v(format!("request {i} ({op:?}) under lock contention ({hits} busy answers) was rejected against the rule"));
+                            }
+                        }
+                        _ => {
+                            // failed for want of the lock: fine; whatever it left is judged by the
+                            // crash images below, and the history ends here
+                            stop = true;
+                        }
+                    }
+                    // the dump after an accepted version has to be taken with the new id known
+                    let d = if matches!(out, crate::driver::Outcome::Accepted { .. }) {
+                        rec.pause();
+                        let d2 = normalise(h.drv.api_dump(&h.clients, &h.ids).map_err(|e| Fail::Violation(format!("dump: {e:#}")))?);
+                        rec.resume();
+                        d2
+                    } else {
+                        d
+                    };
+                    mutating.push(dumps.last() != Some(&d));
+                    ranges.push((s, e));
+                    dumps.push(d);
+                    models.push(h.model.clone());
+                    labels.push(format!("AddVersion:{}:under-lock-contention({hits} busy answers)", out.class()));
+                    if stop {
+                        break;
+                    }
+                    continue;
+                }
             }
             let s = rec.len();
             let n0 = h.steps.len();
@@ -256,6 +326,12 @@ pub fn check_crash(kc: &KCase, st: &mut Stats) -> CheckResult {
     let r = record_history(kc)?;
     let n = r.ops.len();
     st.label_n("c04:file-ops-recorded", n as u64);
+    for l in &r.labels {
+        if let Some(i) = l.find(":under-lock-contention") {
+            // e.g. c04:lock-contention:AddVersion:error(130 busy answers)
+            st.label(&format!("c04:lock-contention:{}{}", &l[..i], &l[i + ":under-lock-contention".len()..]));
+        }
+    }
     // which crash points
     let wanted: Box<dyn Fn(usize) -> bool> = if kc.max_points == 0 || n <= kc.max_points as usize {
         Box::new(|_| true)
@@ -372,7 +448,9 @@ fn kcase(tier: Tier) -> BoxedStrategy<KCase> {
                     }
                 }
             }
-            KCase { via, case, subsets, continuation, max_points: if deep { 600 } else { 160 }, point_salt, deep }
+            // one generated history in five: lock contention during one of its requests
+            let busy = if point_salt % 5 == 0 { Some(((point_salt >> 8) as u16, [12u16, 40, 75, 135, 200, 260, 320, 400][(point_salt as usize >> 3) % 8])) } else { None };
+            KCase { via, case, subsets, continuation, max_points: if deep { 600 } else { 160 }, point_salt, deep, busy }
         })
         .boxed()
 }
@@ -400,6 +478,31 @@ fn canonical(tier: Tier) -> Vec<KCase> {
                 max_points: if big > 100_000 { 400 } else { 0 },
                 point_salt: 1,
                 deep: tier == Tier::Thorough,
+                busy: None,
+            });
+        }
+        // lock contention: another connection holds the write lock while an AddVersion (the
+        // first of a new client, the next of a chain) is handled - for less than the lock-wait
+        // budget, for one, two, three ... budgets - and then lets go
+        for (target, attempts) in [(0u16, 12u16), (0, 75), (0, 200), (2, 12), (2, 40), (2, 75), (2, 135), (2, 200), (2, 260), (2, 320), (2, 400), (2, 600)] {
+            if tier == Tier::Quick && via == Via::Http && ![40, 135, 200].contains(&attempts) {
+                continue;
+            }
+            let ops = vec![
+                Op::AddVersion { c: 0, parent: IdRef::Nil, data: d(1, 30) },
+                Op::AddSnapshot { c: 0, version: IdRef::Latest(0), data: d(3, 40) },
+                Op::AddVersion { c: 0, parent: IdRef::Latest(0), data: d(2, 5000) },
+                Op::AddVersion { c: 0, parent: IdRef::Latest(0), data: d(5, 20) },
+            ];
+            out.push(KCase {
+                via,
+                case: Case { cfg: Default::default(), salt: 6, nclients: 1, ops },
+                subsets: vec![0xA5A5_5A5A],
+                continuation: vec![Op::AddVersion { c: 0, parent: IdRef::Latest(0), data: d(8, 12) }, Op::GetChild { c: 0, parent: IdRef::Nil }],
+                max_points: 0,
+                point_salt: 1,
+                deep: false,
+                busy: Some((target, attempts)),
             });
         }
     }
@@ -416,6 +519,7 @@ pub fn run(tier: Tier, seed: u64) -> Report {
     );
     rep.assume("file creation and deletion are atomic and durable when issued; a synced write is durable; unsynced writes and truncates may be lost independently at operation granularity (thorough: a last write may be torn at a 512-byte boundary); SQLite's recovery is correct under this, its own documented fault model");
     rep.assume("the -shm file is never part of an image (SQLite rebuilds it)");
+    rep.assume("lock contention is injected at the VFS: attempts to take the write lock are answered SQLITE_BUSY and the busy handler's sleeps cost no real time (its time-out accounting goes by attempts), so 'held for three lock-wait budgets, then released' is a matter of ~180 refused attempts (one budget = 61 attempts with the default 5 s time-out); a second connection stays open meanwhile, as a real lock holder's would");
     rep.assume("'client exists with no versions' is identified with 'client unknown' (the HTTP create step is a committed transaction of its own by design)");
     let r = engine::replay_dir::<KCase, _>("C04", "crash", check_crash);
     rep.absorb("replay-tier", r);
